@@ -2,6 +2,9 @@ package cli
 
 import (
 	"fmt"
+	"sort"
+	"strconv"
+	"strings"
 	"testing"
 
 	"pgregory.net/rapid"
@@ -135,11 +138,79 @@ func c05Prop(c c05Case) ev.Outcome {
 	return o
 }
 
+// ---- live_table redraws ----------------------------------------------------------------------------------------------
+
+type c05LiveCase struct {
+	Rows  int    `json:"rows"`
+	N     int    `json:"n"`
+	Order string `json:"order"`
+	Mod   int    `json:"mod"`
+}
+
+// a query that runs long enough for live_table to redraw its table at least once (it redraws every 250 ms while records
+// arrive); the FINAL table must still hold exactly the LIMIT-ed rows.
+func c05LiveProp(c c05LiveCase) ev.Outcome {
+	var sb strings.Builder
+	sb.WriteString("v\n")
+	vals := make([]int, c.Rows)
+	for i := 0; i < c.Rows; i++ {
+		vals[i] = (i*7919 + 13) % c.Mod
+		sb.WriteString(strconv.Itoa(vals[i]))
+		sb.WriteByte('\n')
+	}
+	sql := "SELECT t.v AS a FROM big.csv t"
+	switch c.Order {
+	case "asc":
+		sql += " ORDER BY a"
+	case "desc":
+		sql += " ORDER BY a DESC"
+	}
+	sql += fmt.Sprintf(" LIMIT %d", c.N)
+	r := Run(Inv{Files: map[string]string{"big.csv": sb.String()}, Args: []string{sql, "-o", "live_table"}})
+	if r.TimedOut {
+		return ev.Outcome{Discard: true}
+	}
+	if r.Exit != 0 {
+		return ev.Fail("query fails: %s\n  %s", sql, r.Brief())
+	}
+	frames := strings.Count(ansiEscape.ReplaceAllString(r.Stdout, ""), "| a ")
+	got, err := ParseTableOut(r.Stdout)
+	if err != nil {
+		return ev.Fail("-o live_table: %v\n  query: %s", err, sql)
+	}
+	want := c.N
+	if c.Rows < want {
+		want = c.Rows
+	}
+	if len(got) != want {
+		return ev.Fail("-o live_table after %d table frames: the final table has %d rows, want %d\n  query: %s over %d rows", frames, len(got), want, sql, c.Rows)
+	}
+	if c.Order != "" {
+		sorted := append([]int{}, vals...)
+		sort.Ints(sorted)
+		if c.Order == "desc" {
+			for i, j := 0, len(sorted)-1; i < j; i, j = i+1, j-1 {
+				sorted[i], sorted[j] = sorted[j], sorted[i]
+			}
+		}
+		for i, row := range got {
+			if w, _ := ratOf(strconv.Itoa(sorted[i])); row["a"] != w {
+				return ev.Fail("-o live_table after %d table frames: final table row %d is %s, want %s\n  query: %s", frames, i, row["a"], w, sql)
+			}
+		}
+	}
+	o := ev.Outcome{NonTrivial: frames >= 2, Key: fmt.Sprintf("%+v", c), Classes: []string{"live_table_long_running"}}
+	if frames >= 2 {
+		o.Classes = append(o.Classes, "live_table_redrawn_before_the_end")
+	}
+	return o
+}
+
 func TestC05(t *testing.T) {
 	r := ev.New("C05", "exploration",
 		"row multisets with duplicates (1-2 columns of small ints / short ASCII words, NULLs, 0..12 rows) x n in 0..rows+2 x ORDER BY none/asc/desc x placement top-level / subquery in FROM / WITH x plain or retracting input (GROUP BY ... TRIGGER COUNTING 1 underneath) x "+
 			"all five output modes on every case; oracle: exactly min(n,N) rows, sub-multiset of the full result, sorted key sequence equal to the first n keys counting duplicates individually. "+
-			"non-trivial: n=0, n>=N, duplicates straddling the cut, or n<N with duplicate rows. distinct=(query, file, modes)",
+			"non-trivial: n=0, n>=N, duplicates straddling the cut, or n<N with duplicate rows. distinct=(query, file, modes). live_table_redraw: 400k-700k row inputs so that live_table redraws before the end (non-trivial when it did); the final table must hold exactly the limited, ordered rows",
 		"values are ints, NULL and quote/separator-free ASCII words so the table and stream_native renderings parse unambiguously; tables are decoded from the last table printed")
 	ev.Check(t, r, "limit_order_modes", ev.N(1600, 30000), func(t *rapid.T) c05Case {
 		tbl := gen.Table(t, gen.TableOpts{Name: "tab", MinRows: 0, MaxRows: 12, MaxCols: 2, NoLong: true, Kinds: []string{"int", "str"}, Format: rapid.SampledFrom([]string{"csv", "csv", "json"}).Draw(t, "fmt")})
@@ -163,4 +234,8 @@ func TestC05(t *testing.T) {
 		c.Retract = rapid.IntRange(0, 3).Draw(t, "retract") == 0 && len(tbl.Rows) > 0
 		return c
 	}, c05Prop)
+	ev.Check(t, r, "live_table_redraw", ev.N(16, 300), func(t *rapid.T) c05LiveCase {
+		return c05LiveCase{Rows: rapid.SampledFrom([]int{700000, 1500000}).Draw(t, "rows"), N: rapid.IntRange(0, 6).Draw(t, "n"),
+			Order: rapid.SampledFrom([]string{"", "asc", "desc"}).Draw(t, "order"), Mod: rapid.SampledFrom([]int{3, 1000, 1000003}).Draw(t, "mod")}
+	}, c05LiveProp)
 }
